@@ -37,6 +37,16 @@ func EqualVals(a []Value, b []Value) bool {
 
 func CompareVals(a []Value, b []Value) int {
 	for i, v := range a {
+		// a missing key part sorts before any value
+		if i >= len(b) || b[i] == nil {
+			if v == nil {
+				continue
+			}
+			return 1
+		}
+		if v == nil {
+			return -1
+		}
 		c := v.(Comparable).Compare(b[i].(Comparable))
 		if c < 0 {
 			return c
